@@ -140,7 +140,7 @@ SAVE_COUNT = [0]
 LAST_SAVE_MODE = [None]
 
 
-def save_bytes(case, path=None):
+def save_bytes(case, path=None, entries=None):
     """Run the real IndxIO.save into a real file; return its bytes."""
     from catii.indxio import IndxIO
 
@@ -152,7 +152,7 @@ def save_bytes(case, path=None):
         SAVE_COUNT[0] += 1
         LAST_SAVE_MODE[0] = mode
         with open(p, mode) as f:
-            IndxIO.save(f, entries_dict(case), int(case["common"]), numpy.dtype(U32))
+            IndxIO.save(f, entries_dict(case) if entries is None else entries, int(case["common"]), numpy.dtype(U32))
         with open(p, "rb") as f:
             return f.read()
     finally:
